@@ -166,6 +166,13 @@ def check_filter_rows(ctx):
                       sample='index over %s, rows %s' % (tables, sorted(set(rows))))
 
 
+def _enclosing_comprehension(f, call):
+    for n in ast.walk(f.node):
+        if isinstance(n, (ast.GeneratorExp, ast.ListComp)) and any(x is call for x in ast.walk(n.elt)):
+            return n.generators[0]
+    return None
+
+
 def check_arrays(ctx):
     repo = ctx.repo
     n = 0
@@ -188,8 +195,18 @@ def check_arrays(ctx):
                 n += 1
                 arr = view.expand(b[tabp], st)
                 cols = view.expand(b[colp], st)
-                # peel split_table(..)[j]
+                # peel split_table(..)[j]  /  the element variable of `for [j,] x in [enumerate(]split_table(..)[)]`
                 base = arr
+                if isinstance(base, ast.Name):
+                    gen = _enclosing_comprehension(g, c)
+                    if gen is not None:
+                        names = [x.id for x in ast.walk(gen.target) if isinstance(x, ast.Name)]
+                        if base.id in names:
+                            src = view.expand(gen.iter, st)
+                            if isinstance(src, ast.Call) and call_name(src) == 'enumerate' and src.args:
+                                src = src.args[0]
+                            if isinstance(src, ast.Call) and call_name(src) == 'split_table' and src.args:
+                                base = src.args[0]
                 if isinstance(base, ast.Subscript) and isinstance(base.value, ast.Call) and call_name(base.value) == 'split_table':
                     base = base.value.args[0]
                 ok = isinstance(base, ast.Call) and call_name(base) == 'convert_dataframe_to_array' and len(base.args) >= 3
